@@ -26,7 +26,8 @@ RULE = ("case = (client stack: Client / PooledClient / HashClient with 1-3 serve
         "call must not raise and must return miss - same shape, the same default objects by identity (defaults that are callables - a class, a function, dict, list - included: they are handed back, not called) - or, when the "
         "fault turned out harmless, the genuine hit; afterwards (clock advanced past two dead_timeouts) set+get on the "
         "same-shaped call on another client object, made after the first caller filled in the (empty) dict it was handed, still returns a clean miss; the same read call, repeated with no other traffic in between, returns the genuine hit (the items were on the servers all along) and set+get on the same object work. Non-trivial: the fault fired (from the log) and the method is not plain get. Stacks whose servers are put into rotation at run time through add_server in its spellings ((host, port), (host, 'port'), 'host:port', legacy two-argument forms), host names with capitals; with several servers the items of the servers that did not fail may be present. The ElastiCache subclass is a stack like HashClient. Two users at once: two threads / tasks switching at socket calls make the same read on one HashClient(use_pooling=True, ignore_exc=True) while the server's retry is due, while it fails, or after it was given up - neither raises, each returns the miss or the hit. Dialect failures: the server answers a read in a dialect (an unasked item, a cas field, reordered, repeated, blanks, hang-up after an error line) - with ignore_exc the read does not raise and gives the miss or the hit. Reads of very many keys (1001 to 25 000, thorough 70 000) that fail late - the last value undeserialisable, the connection lost near the end of the reply - are a miss as a whole."
-        + ' TLS stacks whose closing handshake (unwrap) fails on a broken connection; outages that change their nature at a chosen read (refused / timeout, then accepted-and-hung-up, garbage lines, SERVER_ERROR busy); a failed node whose name is re-pointed at a replacement while the old address stays dead (failure type moved).')
+        + ' TLS stacks whose closing handshake (unwrap) fails on a broken connection; outages that change their nature at a chosen read (refused / timeout, then accepted-and-hung-up, garbage lines, SERVER_ERROR busy); a failed node whose name is re-pointed at a replacement while the old address stays dead (failure type moved).'
+        + ' A batch and a failure at once: two users of one HashClient over two servers (pooled or not, retry_attempts 0-2, ignore_exc on), one reading a batch that spans both servers, the other reading a key of the server that is failing (refused, or reset at the first read) and whose retry budget this failure uses up, switching at socket calls under 16 (thorough 64) hand-over patterns, either user first: neither call raises, the batch returns a part of what it returns with both servers healthy.')
 MANIFEST = {
     "category": "fault_enumeration",
     "technique": "systematic enumeration of (read method x client stack x argument shape x every fault position/kind of a dry run) with a differential oracle: the failing call's result must be identical (by identity of the default objects) to the same call's miss result, or be the genuine hit",
@@ -521,9 +522,67 @@ def check_two_users(case):
     return sc.switches > 0, ["two-users", kind, phase]
 
 
+BATCH_KEYS = ["t", "n", "a", "b", "c", "d", "e", "f"]
+
+
+def batch_and_failure_cases(tier, seed):
+    """two users of one HashClient over two servers: one reads a batch that spans both servers, the other reads one key of
+    the server that is failing and whose retry budget this failure uses up - the server is given up while the batch is
+    between its two servers"""
+    for kind in ("hash-pooled", "hash"):
+        for ra in (0, 1, 2):
+            for down in (0, 1):
+                for how in ("refused", "reset-recv"):
+                    for batch in ("get_many", "gets_many"):
+                        for first in (0, 1):
+                            for mask in (range(16) if tier == "quick" else range(64)):
+                                yield {"kind": kind, "retry_attempts": ra, "down": down, "how": how, "batch": batch, "first": first,
+                                       "choices": [(mask >> b) & 1 for b in range(6)] + [1, 0, 1, 1, 0, 1, 0, 0, 1] * 3}
+
+
+def check_batch_and_failure(case):
+    from vlib import interleave
+    kind, ra, down = case["kind"], case["retry_attempts"], case["down"]
+    base = {"kind": kind, "nservers": 2, "cfg": {"retry_attempts": ra, "max_pool_size": 4} if kind.endswith("pooled") else {"retry_attempts": ra}}
+    env, c = setup(base, True)
+    with virtual_time(env.clock):
+        full = env.call(getattr(c, case["batch"]), list(BATCH_KEYS))
+        if full[0] != "ok":
+            raise Violation(["batch-and-failure", "healthy-read-raised"], "%s of %r with both servers healthy raised %r" % (case["batch"], BATCH_KEYS, full[1]))
+        full = full[1]
+        owner = {k: c.hasher.get_node(k) for k in BATCH_KEYS}           # (only to pick the keys; nothing is judged by it)
+        nodes = sorted(set(owner.values()))
+        dsrv = env.servers[down]
+        dname = "%s:%s" % tuple(env.addrs[down])
+        mine = [k for k in BATCH_KEYS if owner[k] == dname]
+        desc = "%s(%r) by one user, get(%r) by another, on one %s over two servers (retry_attempts=%d) while %s is %s and this failure uses its retry budget up; user %d first, hand-over pattern %r" % (
+            case["batch"], BATCH_KEYS, mine[:1], kind, ra, dname, case["how"], case["first"], case["choices"][:6])
+        if len(nodes) < 2 or not mine:
+            return False, ["batch-and-failure", "keys-on-one-server"]
+        dsrv.down = case["how"]
+        for _ in range(ra):
+            env.call(c.get, mine[0])              # swallowed: the failure and then each failed retry is recorded
+            env.clock.advance(1.5)
+        u0 = lambda: getattr(c, case["batch"])(list(BATCH_KEYS))
+        u1 = lambda: c.get(mine[0])
+        out, sc = interleave.run(env.net, [u0, u1], choices=case["choices"], first=case["first"])
+        dsrv.down = None
+    for u, r in enumerate(out):
+        if r[0] != "ok":
+            raise Violation(["batch-and-failure", "raised", type(r[1]).__name__], "user %d's call raised %r although ignore_exc is set: %s" % (u, r[1], desc))
+    got = out[0][1]
+    if type(got) is not dict or any(k not in full or full[k] != v for k, v in got.items()):
+        raise Violation(["batch-and-failure", "shape"], "the batch returned %r; with both servers healthy it returns %r: %s" % (got, full, desc))
+    if out[1][1] is not None and out[1][1] != b"text":
+        raise Violation(["batch-and-failure", "shape"], "the single read returned %r, neither a miss nor the stored value: %s" % (out[1][1], desc))
+    given_up = dname not in c.hasher.nodes if hasattr(c.hasher, "nodes") else False
+    return sc.switches > 0 and given_up, ["batch-and-failure", kind, "given-up" if given_up else "still-in-rotation", "ra=%d" % ra]
+
+
 PARTS = [
     Part("reads-of-very-many-keys", "enum", check_long_read, cases=long_read_cases, shards={"quick": 10, "thorough": 16}, exhaustive=True),
     Part("two-users-at-once", "enum", check_two_users, cases=two_users_cases, exhaustive=True),
+    Part("a-batch-and-a-failure-at-once", "enum", check_batch_and_failure, cases=batch_and_failure_cases, exhaustive=True),
     Part("failure-sweep", "enum", check, cases=sweep_cases, exhaustive=True),
     Part("random", "hyp", check, strategy=random_strategy,
          examples={"quick": 300, "thorough": 12000}, shards={"quick": 4, "thorough": 16}),
